@@ -98,6 +98,27 @@ CHECKS = {
             "z3 optimum over all paths (DAG; incl. path-length factors, superset) or be no worse than the best bounded-multiplicity witness (cyclic); "
             "violations of the walk model are classified by mechanism by re-solving the reference under the library's own caps/bounds.",
             "graphs <= 8 edges, covering number <= 4; solver limit 30 s (no verdict when hit); " + TRUST, "DESIGN.md 4/C08"),
+    "C13": ("fault_enumeration", "solver-call trace monitor + fault injector on SolverWrapper.__init__/optimize/get_model_status, exhaustive over the invocation positions of each explored instance",
+            "A fault-free run records the sequence of solver invocations; then one run per (position j, mode, status) injects a native zero "
+            "time limit, a status override after a completed optimize, a skipped optimize or the custom-timeout flag with 8 non-optimal "
+            "statuses. Judged: getters raise before solve; a faulted single model is unsolved and hands out no data; a faulted minimum search "
+            "(MinFlowDecomp(+Cycles), MinPathCover(+Cycles), MinGenSet, incl. min-gen-set lower bound and guessed weights) is unsolved or "
+            "returns exactly the fault-free optimum, never answered by the faulted invocation; NumPathsOptimization returns only a model whose "
+            "own last status was optimal.",
+            "exhaustive over j for the explored instances (random small instances + a corpus of multi-invocation searches), not over inputs; Gurobi codes not exercisable; " + TRUST, "DESIGN.md 4/C13"),
+    "C18": ("exploration", "argument-snapshot monitor (structural hashes of caller objects and of every __init__.__defaults__) + history-vs-isolation differential + repeated solve/getters",
+            "Histories of 2-4 constructions sharing graph, non-empty option dicts, solver options, constraint / ignore / start / end lists, "
+            "scaling dicts and weight supersets (edge and node weighted; a separate worker group uses only default arguments) are run; after "
+            "every step all caller objects and all classes' mutable defaults are compared with their snapshots; every step's (solved, objective, "
+            "#routes) is compared with the same construction in isolation; solve() and getters are repeated; a caller-owned "
+            "max_edge_repetition_dict is passed to a subclass of the abstract walk model.",
+            "isolation runs share the process (process-global state is watched via the defaults snapshots); " + TRUST, "DESIGN.md 4/C18"),
+    "C19": ("exploration", "runtime monitor on exception type / is_solved under single and paired input violations + converse workload",
+            "27 violation kinds (and pairs) are applied to valid random base instances of all 12 model classes, plus argument checks of "
+            "MinGenSet / NumPathsOptimization / NodeExpandedDiGraph / stDAG / stDiGraph / SolverWrapper: the outcome must be ValueError at "
+            "construction or solve() and never a solved model; conversely random in-domain instances and a corpus (one-node graphs, isolated "
+            "nodes, single edge) must construct and solve without any exception.",
+            "a non-conserving flow is strict only for the classes that document it; a node without the attribute is 'ignored', not invalid; " + TRUST, "DESIGN.md 4/C19"),
 }
 
 NOT_YET = {}
